@@ -587,7 +587,15 @@ func (env *Env) eval(e CExpr) Val {
 		if a.S != sIface {
 			env.fail("type assertion on non-interface")
 		}
-		return env.ex.unbox(a.E, env.resolveType(x.Type))
+		tt := env.resolveType(x.Type)
+		r := env.ex.unbox(a.E, tt)
+		if _, isIface := tt.Underlying().(*types.Interface); !isIface && !strings.Contains(r.E, "q_") {
+			// type invariant of the value held by an interface of that dynamic type (closed terms only)
+			if w := em.wf(r); w != "" {
+				em.emit(fmt.Sprintf("(assert (=> (= (i_tag %s) %d) %s))", a.E, em.typeTag(tt), w))
+			}
+		}
+		return r
 	case *CCall:
 		return env.call(x)
 	}
